@@ -105,6 +105,9 @@ func (s *monSink) result(op byte) error {
 	}
 	// post-trigger write faults (the frame loop logs them and carries on): never on the
 	// writes of the step in which the recording started (those are the pre-trigger path)
+	if r.stopFaultPct > 0 && op == opStop && s.which == sinkMotion && r.faultRNG.Intn(100) < r.stopFaultPct {
+		return errors.New("injected stop fault")
+	}
 	if r.writeFaultPct > 0 && op == opWrite && s.which == sinkMotion && r.curRec != nil {
 		started := false
 		for _, o := range r.curRec.Ops[sinkMotion] {
@@ -178,13 +181,15 @@ type fsmRun struct {
 	fault  func(sink int, op byte, n int) bool
 	// probability (percent) that a post-trigger WriteFrame on the motion sink fails
 	writeFaultPct int
-	faultRNG      *vRNG
-	keepBg        bool
-	now           time.Time
-	seq           int
-	acc           int
-	accOf         []int // seq -> accepted index or -1
-	level         uint16
+	// probability (percent) that StopRecording on the motion sink reports an error
+	stopFaultPct int
+	faultRNG     *vRNG
+	keepBg       bool
+	now          time.Time
+	seq          int
+	acc          int
+	accOf        []int // seq -> accepted index or -1
+	level        uint16
 	// hooks for specialised harnesses
 	afterStep func(r *fsmRun, s *stepRec)
 }
